@@ -35,6 +35,8 @@
 #include <stdint.h>
 #include <unistd.h>
 #include <signal.h>
+#include <errno.h>
+#include <time.h>
 #include <sys/types.h>
 #include <sys/wait.h>
 #include <vector>
@@ -50,7 +52,7 @@ extern "C" {
 }
 
 #define CHILD_TIMEOUT 10
-#define BIG_TIMEOUT 90
+#define BIG_TIMEOUT 45
 static long g_runaway = 20000;
 #define MAXLOG (1 << 20)
 
@@ -259,7 +261,27 @@ static void run_pf(int W, const std::string & form, const std::string & ty, long
   emit_and_exit(g_out.c_str(), 0);
 }
 
+
+/* wait for the child at most `limit` seconds (SIGCHLD is blocked in main and consumed here); a child that
+   is still running then is killed: the library may handle or block SIGALRM, so its own alarm is not enough */
+static int wait_child(pid_t pid, int limit, int * st) {
+  sigset_t ss; struct timespec to;
+  sigemptyset(&ss); sigaddset(&ss, SIGCHLD);
+  to.tv_sec = limit; to.tv_nsec = 0;
+  for (;;) {
+    pid_t r = waitpid(pid, st, WNOHANG);
+    if (r == pid) return 0;
+    if (r < 0) return -1;
+    if (sigtimedwait(&ss, 0, &to) < 0 && errno == EAGAIN) {
+      kill(pid, SIGKILL);
+      waitpid(pid, st, 0);
+      return 1;
+    }
+  }
+}
+
 int main() {
+  { sigset_t ss; sigemptyset(&ss); sigaddset(&ss, SIGCHLD); sigprocmask(SIG_BLOCK, &ss, 0); }
   char line[1 << 16];
   while (fgets(line, sizeof line, stdin)) {
     std::vector<std::string> tok;
@@ -292,7 +314,9 @@ int main() {
                   tok.size() == 9 ? atoi(tok[8].c_str()) : 0);
       _exit(0);
     }
-    if (waitpid(pid, &st, 0) < 0) printf("outcome=waitfail\n");
+    int wr = wait_child(pid, (tok[0] == "pfbig" ? BIG_TIMEOUT : CHILD_TIMEOUT) + 2, &st);
+    if (wr < 0) printf("outcome=waitfail\n");
+    else if (wr == 1) printf("outcome=timeout\n");
     else if (WIFSIGNALED(st)) {
       if (WTERMSIG(st) == SIGALRM) printf("outcome=timeout\n");
       else printf("outcome=signal:%d\n", WTERMSIG(st));
